@@ -233,6 +233,42 @@ def check_scan(st, res, rule):
     res.floor("loops on the way to the conflict detector", n, 2)
 
 
+def check_key_types(st, res, rule):
+    """the detector finds a conflict by looking the (state, look-ahead) key up and comparing actions: every local type
+    in the action map's type must have its PartialEq / Eq / Hash derived, so that two keys are equal exactly when they
+    are the same cell and two actions equal exactly when they are the same action"""
+    mir = st.mir
+    owner = mir.adts.get(st.map_owner) or {}
+    fty = None
+    for v in owner.get("variants", []):
+        for f in v["fields"]:
+            if f["name"] == st.map_field:
+                fty = f["ty"]
+    if fty is None:
+        res.unanalysable(rule, "map-type", "", "cannot read the type of the action map")
+        return
+    n = 0
+    for T in sorted(set(fty.get("adts", []))):
+        if T not in mir.adts:
+            continue
+        for im in mir.impls:
+            if im["self_ty"]["head"] != T or im.get("trait") not in ("std::cmp::PartialEq", "std::cmp::Eq", "std::hash::Hash"):
+                continue
+            n += 1
+            res.inst(rule, "map-type|%s|%s" % (T.rsplit("::", 1)[-1], im["trait"].rsplit("::", 1)[-1]), "", True, "derived=%s" % im["derived"])
+            if not im["derived"]:
+                f_, l_ = parse_at_(im)
+                res.violate(rule, "map-type|%s|%s" % (T.rsplit("::", 1)[-1], im["trait"].rsplit("::", 1)[-1]), "%s:%d" % (f_, l_),
+                            "`%s` occurs in the action map's type but its %s is hand-written: two different cells can collide (or one cell can be looked up under two keys), so a conflict is reported where there is none or missed where there is one" % (T.rsplit("::", 1)[-1], im["trait"].rsplit("::", 1)[-1]))
+    res.floor("comparison impls of the action map's key and value types", n, 4)
+
+
+def parse_at_(im):
+    from .mir import parse_at
+    sp = im.get("span") or {}
+    return parse_at(sp.get("at", "?:0:0: 0:0")) if sp else ("?", 0)
+
+
 def check_guards(st, res, rule):
     """no call on the way to the conflict detector may be skipped because of what the action map already holds:
     the calls towards the detector are control-dependent only on the shape of the item / rule (and on `?` of earlier
